@@ -246,7 +246,7 @@ func v5RunScenario(scn v5Scn) (res v5Res) {
 		serve = func() { s.handle(sc) }
 		cleanup = func() { cc.Close(); ln.Close() }
 	case "udp":
-		pc := &packetConn{PacketConn: v5UDPSock, readCh: make(chan *packet, 128), addr: v5Addr(fmt.Sprintf("192.0.2.7:%d", 1000+scn.id)), closeCh: make(chan string, 16)}
+		pc := &packetConn{PacketConn: v5UDPSock, readCh: make(chan *packet, 128), addr: v5Addr(fmt.Sprintf("192.0.2.7:%d", 1000+scn.id)), closeCh: make(chan *packetConn, 16), closed: make(chan struct{})}
 		send = func(b []byte) (err error) {
 			defer func() {
 				if recover() != nil {
